@@ -351,7 +351,9 @@ def run(chk, repo):
     # which arm searches the data for the first sign: the guard is evaluated for representative (first_sign,
     # hysteresis) pairs - the search happens exactly when first_sign is 0, whatever the hysteresis
     from ..dtable import Facts, holds as _holds, RAISE as _RAISE
-    has_search = lambda stmts: any(isinstance(n, ast.For) and any(isinstance(b_, ast.Break) for b_ in ast.walk(n)) for st_ in stmts for n in ast.walk(st_))
+    # (the arm that reads samples: a loop that yields; that it stops at the first sample outside the band is checked below)
+    has_search = lambda stmts: any(isinstance(n, ast.For) and any(isinstance(b_, (ast.Yield, ast.YieldFrom)) for b_ in ast.walk(n))
+                                   for st_ in stmts for n in ast.walk(st_))
     search_in_body = has_search(fs[0].body)
     chk.require(search_in_body != has_search(fs[0].orelse), "zcross: the search for the first sign is not in exactly one arm")
     bad_pairs = []
